@@ -208,6 +208,7 @@ def run(chk):
     except (Undecided, IndexError) as e:
         chk.undecided("C12.M", "Cube::one / Cube::zero", str(e))
     small(chk, facts, cm)
+    cube_windows(chk, facts, cm)
     chk.notes["explanation"] = "lane abstraction: every condition/result of the cube operations is a uniform per-lane predicate/function; compared with the semantic specification on all non-empty sets of lane values; shift constructors in 32-bit word mode"
 
 
@@ -409,3 +410,90 @@ def small(chk, facts, cm):
         except Undecided as e:
             v, d = UNDECIDED, e.cause
         chk.add("C12.A", key, v, d, where=where_of(b))
+
+
+def cube_windows(chk, facts, cm):
+    """C12.W: the binary cube operations on real cubes over windows of variables that include the sign lane 31
+    (window mode: every result bit is an exact function of the literal atoms; whatever bit tricks the code uses).
+    For every canonical pair: a & b is the canonical zero iff the literal sets clash, else their union (all four
+    forms); intersects = no clash; implies = containment of the literal sets."""
+    import itertools as _it
+    from ..harness import Space
+    forms = [(bd, "<%s as %s>::%s" % (sty["s"], tr["s"], bd["name"])) for bd, sty, tr in facts.trait_impl_methods("std::ops::BitAnd") if (sty["t"] if sty["k"] == "ref" else sty).get("path") == CUBE]
+    ops_ = [(bd, label, "and") for bd, label in forms]
+    for mname in ("intersects", "implies"):
+        if mname in cm.methods:
+            ops_.append((cm.methods[mname], "Cube::%s" % mname, mname))
+    zero_vals = (cm.zero.fields[0].val, cm.zero.fields[1].val)
+    for window in ((0, 1), (3, 31), (30, 31), (0, 15, 31)):
+        for bd, label, kind_ in ops_:
+            if kind_ == "and" and chk.tier == "quick" and len(window) == 3 and label != ops_[0][1]:
+                continue
+            key = "%s on cubes over variables %s" % (label, list(window))
+            try:
+                names = ["%s.%s[%d]" % (c_, f_, i_) for c_ in "ab" for f_ in "PN" for i_ in window]
+                canon = [W(1, bits=[B.bnot(B.band(B.atom("%s.P[%d]" % (c_, i_)), B.atom("%s.N[%d]" % (c_, i_))))]) for c_ in "ab" for i_ in window]
+                space = Space(names, canon)
+                it = Interp(facts, max_paths=4096)
+                it.prune = True
+                it.space = space
+                st = State()
+
+                def mk(c_):
+                    f = [None, None]
+                    f[cm.pi] = W(32, bits=[B.atom("%s.P[%d]" % (c_, i_)) if i_ in window else ZERO for i_ in range(32)])
+                    f[cm.ni] = W(32, bits=[B.atom("%s.N[%d]" % (c_, i_)) if i_ in window else ZERO for i_ in range(32)])
+                    return Agg("adt", CUBE, 0, f)
+                with space:
+                    outs = it.call_body(bd, [arg_for(bd["sig"]["inputs"][0], mk("a"), st), arg_for(bd["sig"]["inputs"][1], mk("b"), st)], st, {}, pc=tuple(canon))
+                owner = {}
+                for idx_, o in enumerate(outs):
+                    m_ = space.pc_mask(o.pc)
+                    if m_ is None:
+                        raise Undecided("path condition with top")
+                    while m_:
+                        low = m_ & -m_
+                        owner.setdefault(low.bit_length() - 1, []).append(idx_)
+                        m_ ^= low
+                v, d = PROVED, ""
+                for lits in _it.product((0, 1, 2), repeat=2 * len(window)):
+                    named = {}
+                    cube = {}
+                    for ci, c_ in enumerate("ab"):
+                        pos = neg = 0
+                        for wi, i_ in enumerate(window):
+                            l_ = lits[ci * len(window) + wi]
+                            named["%s.P[%d]" % (c_, i_)] = int(l_ == 1)
+                            named["%s.N[%d]" % (c_, i_)] = int(l_ == 2)
+                            pos |= (l_ == 1) << i_
+                            neg |= (l_ == 2) << i_
+                        cube[c_] = (pos, neg)
+                    en = [outs[x_] for x_ in owner.get(space.index(named), [])]
+                    desc = "a = (pos %#x, neg %#x), b = (pos %#x, neg %#x)" % (cube["a"] + cube["b"])
+                    if len(en) != 1:
+                        v, d = UNDECIDED, "%d paths enabled for %s" % (len(en), desc)
+                        break
+                    o = en[0]
+                    if o.kind != "return":
+                        v, d = REFUTED, "panics (%s) for %s" % (o.info.get("msg"), desc)
+                        break
+                    asg = {B.ATOMS.get(k_): v_ for k_, v_ in named.items()}
+                    got = eval_value(o.value, asg)
+                    if got is None:
+                        raise Undecided("result with top")
+                    up, un = cube["a"][0] | cube["b"][0], cube["a"][1] | cube["b"][1]
+                    clash = (up & un) != 0
+                    if kind_ == "and":
+                        want = zero_vals if clash else ((up, un) if cm.pi == 0 else (un, up))
+                        gv = tuple(got[2])
+                        if gv != tuple(want):
+                            v, d = REFUTED, "%s: a & b = (%#x, %#x), expected %s" % (desc, gv[0], gv[1], "the canonical zero cube" if clash else "(%#x, %#x)" % tuple(want))
+                            break
+                    else:
+                        want = (not clash) if kind_ == "intersects" else ((cube["a"][0] | cube["b"][0]) == cube["a"][0] and (cube["a"][1] | cube["b"][1]) == cube["a"][1])
+                        if bool(got) != want:
+                            v, d = REFUTED, "%s: %s returns %s, expected %s" % (desc, kind_, bool(got), want)
+                            break
+            except Undecided as e:
+                v, d = UNDECIDED, e.cause
+            chk.add("C12.W", key, v, d, where=where_of(bd))
